@@ -61,6 +61,7 @@ def main():
                        + outt.strip().splitlines()[-1][:160])
         t0 = time.time()
         rcc, outc = sh([os.path.join(ROOT, "check"), pid, "--tier", tier], cwd=ROOT, env={"BEMPP_REPO": wt}, timeout=6 * 3600)
+        open(f"/tmp/checkout_{os.path.basename(sd.rstrip('/'))}.log", "w").write(outc)
         verdict = [l for l in outc.splitlines() if l.startswith(("VIOLATION", "KNOWN-FINDING")) or "done:" in l]
         ran.append(f"BEMPP_REPO=<patched worktree> ./check {pid} --tier {tier}: exit {rcc} ({time.time() - t0:.0f}s)")
         replay = None
